@@ -337,6 +337,9 @@ def c18(ctx):
     C.run_tool(ctx, "typed", files, {"typed-outcome", "typed-panic"}, canary_every=499)
     files = C.generate(ctx, "Gen_Go", "C18p", {"Stride3": 1}, 4, stride=1, name="Gen_Go_fn")
     C.run_tool(ctx, "typed", files, {"typed-panic"})
+    # the whole slice window (C08 family) on typed slices
+    files = C.generate(ctx, "Gen_Go", "C08", {"Stride3": 1}, 8, stride=3 if ctx.tier == Q else 1, name="Gen_Go_slices")
+    C.run_tool(ctx, "typed", files, {"typed-outcome", "typed-panic"}, canary_every=4999)
     ctx.exhaustive = True
 
 
@@ -385,6 +388,11 @@ def c06(ctx):
     eval_family(ctx, "C02", {Q: (31, 1), T: (2, 1)}, cats=cats, mc=False)
     eval_family(ctx, "C08", {Q: (23, 1), T: (2, 1)}, cats=cats, mc=False)
     C.trace_api(ctx, {"docmod"}, n=800 if ctx.tier == Q else 8000)
+    # "no write happens during the call": a write of equal values is invisible to snapshots; the race detector sees it
+    import json as _json, os as _os
+    wl = _os.path.join(ctx.scratch, "workloads.ndjson")
+    C.run_tlc(ctx, "Gen_Sched", {"Dev": "{}", "Tier": ctx.tier, "OutFile": wl}, ["INIT Init", "NEXT Next"], name="Gen_Sched", timeout=600)
+    C.run_race(ctx, [wl], iters=6 if ctx.tier == Q else 40, goroutines=8)
     ctx.exhaustive = False
 
 
@@ -413,6 +421,7 @@ def c09(ctx):
                 "distinct by (source text, document)")
     eval_family(ctx, "C09", {Q: (3, 1), T: (1, 1)})
     eval_family(ctx, "C09n", {Q: (1, 1), T: (1, 1)})
+    eval_family(ctx, "C09big", {Q: (1, 1), T: (1, 1)})
     mc_interp(ctx, "C09n", 1)
     C.trace_api(ctx, {"outcome"}, n=800 if ctx.tier == Q else 8000)
     if ctx.tier == T:
@@ -427,6 +436,7 @@ def c10(ctx):
     eval_family(ctx, "C10", {Q: (2, 1), T: (1, 1)})
     eval_family(ctx, "C10d", {Q: (1, 1), T: (1, 1)})
     eval_family(ctx, "C10k", {Q: (1, 1), T: (1, 1)})
+    eval_family(ctx, "C11", {Q: (2, 7), T: (1, 1)}, mc=False)     # ill-typed / unknown / wrong-arity calls nested in every context
     negative(ctx, "C10k", "SkipKeyCheckSingleton")
     if ctx.tier == T:
         negative(ctx, "C10", "UncheckedVariadic")
